@@ -60,6 +60,13 @@ impl ProofVerifier for VerifiableEncryptionDecryptionVerifier<'_, '_> {
     }
 
     fn verify(&self, challenge: Scalar) -> CredxResult<()> {
+        // decrypt_and_verify checks the decrypted claim against the generator carried in
+        // the proof; it has to be the generator of the statement the proof was verified for
+        if self.proof.message_generator != self.statement.message_generator {
+            return Err(Error::General(
+                "The proof's message generator does not match the statement",
+            ));
+        }
         let bp_gens = BulletproofGens::new(8, self.proof.byte_proofs.len());
         let pedersen_gen = PedersenGens {
             B: self.statement.message_generator,
